@@ -158,7 +158,7 @@ PROPS.append(('C01', """(* C01 - a corpus document embedded verbatim in a file i
    a sequence against itself is one Equal).  V2/PlantedText.v lifts the setting
    from token lists to TEXT: the tokenizer is compositional at settled line
    boundaries, so a copy of the document's text between other text has exactly
-   the document's words, on the document's lines shifted by the newlines before it. *)""", IMP_V2 + "\nFrom LC.V2 Require Import Planted TokSim TokInv PlantedText.", [
+   the document's words, on the document's lines shifted by the newlines before it. *)""", IMP_V2 + "\nFrom LC.V2 Require Import Planted TokSim TokInv PlantedText FilterProof.", [
  ('C01_text_level', 'C01_text_reported', 'V2/PlantedText.v',
   'THE PROPERTY at the level of the file\'s text: pre ++ docu ++ post with pre and docu ending at settled line boundaries (newline-terminated lines none of which ends in a pending hyphen): the copy is reported with confidence 1.0, token span exactly the copy, lines = the lines of its first and last word, names of the document - under the isolation hypothesis of the token-level theorem and the diff contract'),
  ('C01_tokenizer_compositional', 'tokenize_lines_app', 'V2/PlantedText.v',
@@ -171,6 +171,14 @@ PROPS.append(('C01', """(* C01 - a corpus document embedded verbatim in a file i
  ('C01_exact_copy_scores_one', 'score_exact', 'V2/Planted.v', 'the planted span scores confidence exactly 1.0 with zero offsets'),
  ('C01_candidate_present', 'C01_candidates_le1', 'V2/Planted.v', 'so the candidate list handed to the overlap filter contains the match: confidence 1.0, token span exactly the copy, lines of its first and last word, the names of the document'),
  ('C01_reported_when_isolated', 'C01_reported', 'V2/Planted.v', 'and it is in the result whenever every other candidate is line-isolated from it (copies separated by text on their own lines)'),
+ ('C01_rejected_candidates_have_no_influence', 'filter_rejected_irrelevant', 'V2/FilterProof.v',
+  'overlap filter, for every candidate list: a candidate that is rejected at its turn (even after proposing to evict earlier ones) leaves the result exactly as if it had not been there'),
+ ('C01_filter_is_a_fold', 'filter_candidates_fold', 'V2/FilterProof.v',
+  'the retain loop with its index bookkeeping is a fold over the list of retained candidates'),
+ ('C01_filter_result_settled', 'filter_result_pairwise', 'V2/FilterProof.v',
+  'no two reported matches block or evict each other'),
+ ('C01_filter_idempotent', 'filter_idempotent', 'V2/FilterProof.v',
+  'filtering the result again changes nothing'),
  ('C01_filter_keeps', 'filter_keeps', 'V2/Planted.v', 'the exact condition under which the overlap/containment filter keeps a candidate'),
  ('C01_isolation_is_needed', 'ex_C01_needs_isolation', 'V2/Planted.v', 'two different documents planted on the SAME line: only one is reported - the separation by unrelated text on its own lines in the property is essential', 'typeof'),
 ], ''))
